@@ -849,6 +849,7 @@ func f3Witness(e *Env, ctx context.Context) {
 		e.violate("float-counter-order", fmt.Sprintf("both nodes merged the same commits (0.2, +0.1, +0.3): one reads rate=%v, the other %v", v1["rate"], v2["rate"]), h.replay())
 	}
 	e.count("f3_witness")
+	wideCollectionWitness(e)
 }
 
 func init() { engines["crdt"] = engCrdt }
